@@ -82,7 +82,22 @@ def _all():
                     yield {"fam": "merge", "a1": a1, "g1": g1, "a2": a2, "g2": g2}
 
 
+def _all2():
+    """thorough only: two-variable alternatives (boxes, triangle, half-plane) in membership, <= and merge"""
+    B = alts2()
+    for n in (1, 2):
+        for combo in itertools.combinations(B, n):
+            yield {"fam": "member2", "alts": list(combo)}
+    lists = [list(c) for n in (1, 2) for c in itertools.combinations(B[::2], n)]
+    for L in lists:
+        for R in lists:
+            yield {"fam": "le", "L": L, "R": R, "two": True}
+
+
 def cases(tier, seed):
+    if tier == "thorough":
+        for c in _all2():
+            yield c
     sl = seed % NSLICES
     k = 0
     for c in _all():
@@ -159,6 +174,20 @@ def run_case(case):
                 out.append(("member:unassigned-answered", False, None, {"sub": "unassigned", "what": "unassigned variable did not raise ValueError (answered %r)" % r}))
             except ValueError:
                 out.append(("member:ValueError", False, None, None))
+        return out
+    if fam == "member2":
+        from pacti.iocontract import Var
+
+        n = nested(case["alts"], False)
+        ralts = [O.rts(plist(a)) for a in case["alts"]]
+        i, o = Var("i"), Var("o")
+        for vi in (-0.5, 0, 0.5, 1, 1.5, 2, 2.5, 3, 3.5):
+            for vo in (-0.5, 0, 0.5, 1, 1.5, 2, 2.5):
+                pt = {"i": F(vi), "o": F(vo)}
+                exp = any(all(O.lhs(t, pt) <= t[1] for t in a) for a in ralts)
+                got = n.contains_behavior({i: vi, o: vo})
+                viol = None if got is exp else {"sub": [vi, vo], "what": "nested contains_behavior answered %r, some-alternative semantics says %r" % (got, exp)}
+                out.append(("member:in" if got else "member:out", len(ralts) >= 2, None, viol))
         return out
     if fam == "le":
         L, R = nested(case["L"], False), nested(case["R"], False)
